@@ -104,3 +104,8 @@ def shot(draw, custom=True, mv_classes=("subsonic", "transonic", "rifle"), look_
     spec["atmo"] = draw(atmo(atmo_kinds, max_alt))
     spec["winds"] = draw(winds(max_winds, range_ft=range_ft)) if max_winds else None
     return spec
+
+
+def prior():
+    """what the calculator of a request has been used for before (see build.calculator); None = fresh"""
+    return st.sampled_from([None, None, None, "fire-extra", "fire-subsonic", "zero", "raise"])
